@@ -1,13 +1,13 @@
 #!/bin/bash
 # usage: keep_mutant.sh <PROP> <name> <patch> <demo|-> "<needs>" [budget]
 # evaluates and stores a seeded defect under /verif/seeded/<PROP>-<name>/
-P=$1; N=$2; PATCH=$3; DEMO=$4; NEEDS=$5; B=${6:-20}
+P=$1; N=$2; PATCH=$3; DEMO=$4; NEEDS=$5; B=${6:-20}; PKGDIR=${7:-}
 D=/verif/seeded/$P-$N; mkdir -p $D
 cp $PATCH $D/patch.diff; [ "$DEMO" != "-" ] && cp $DEMO $D/demo_test.go
-/verif/tools/eval_mutant.sh $P $PATCH $DEMO $B > $D/eval.log 2>&1
+/verif/tools/eval_mutant.sh $P $PATCH $DEMO $B $PKGDIR > $D/eval.log 2>&1
 cat $D/eval.log
-SIGS=$(grep '^violation in' $D/eval.log | sed 's/^violation in //' | python3 -c "import sys,json; print(json.dumps([l.strip() for l in sys.stdin]))")
-CAUGHT=false; grep -q '^VIOLATION' $D/eval.log && CAUGHT=true
+SIGS=$(grep -a '^violation in' $D/eval.log | sed 's/^violation in //' | python3 -c "import sys,json; print(json.dumps([l.strip() for l in sys.stdin]))")
+CAUGHT=false; grep -aq '^VIOLATION' $D/eval.log && CAUGHT=true
 python3 - "$P" "$NEEDS" "$SIGS" "$CAUGHT" "$B" > $D/meta.json <<'PY'
 import json,sys
 print(json.dumps({"property":sys.argv[1],"needs_to_manifest":sys.argv[2],
